@@ -15,7 +15,7 @@ Inductive effect (F : Type) : Type :=
 | EFilter (m : fmode) (a1 a2 a3 k mix : F)
 | EEq (a1 a2 a3 m0 m1 m2 : F)
 | ECompressor (log10 powf10 : F -> F) (thr ratio sp_att sp_rel mk_db mix : F)
-| EDelay (d : nat) (g mix : F) (fx : list (effect F))  (* d = floor(delay_time * sample_rate) *)
+| EDelay (d : nat) (g mix : F) (fx : list (effect F))  (* d = floor(delay_time * sample_rate); the line holds max d 1 frames *)
 | EReverb (csz asz : list (nat * nat)) (fb damp width mix : F).
 Arguments EVolume {F}. Arguments EPanning {F}. Arguments EDistortion {F}. Arguments EFilter {F}.
 Arguments EEq {F}. Arguments ECompressor {F}. Arguments EDelay {F}. Arguments EReverb {F}.
@@ -38,7 +38,7 @@ Section Tree.
     | EVolume _ | EPanning _ | EDistortion _ _ _ => SUnit
     | EFilter _ _ _ _ _ _ | EEq _ _ _ _ _ _ => SSvf (fr_zero, fr_zero)
     | ECompressor _ _ _ _ _ _ _ _ => SComp (oZ 0, oZ 0)
-    | EDelay d _ _ fx => SDelay (repeat fr_zero d) (map init fx)
+    | EDelay d _ _ fx => SDelay (repeat fr_zero (Nat.max d 1)) (map init fx)   (* [.max(1)]: repair of F3 *)
     | EReverb csz asz _ _ _ _ => SReverb (reverb_new csz asz)
     end.
 
@@ -100,21 +100,28 @@ Section Tree.
     | _, _ => (ss, y)
     end.
 
-  (** does the state have the shape [init] gives it (the code's invariants: buffer lengths) *)
-  Fixpoint shape_ok (e : effect F) (s : estate F) {struct e} : bool :=
+  (** the state has the shape [init] gives it and the buffers the lengths the code relies on:
+      a delay line of [max d 1] frames, non-empty comb / all-pass buffers *)
+  Fixpoint wf (e : effect F) (s : estate F) {struct e} : bool :=
     match e, s with
     | EVolume _, SUnit | EPanning _, SUnit | EDistortion _ _ _, SUnit => true
     | EFilter _ _ _ _ _ _, SSvf _ | EEq _ _ _ _ _ _, SSvf _ => true
     | ECompressor _ _ _ _ _ _ _ _, SComp _ => true
     | EDelay d _ _ fx, SDelay buf sub =>
-        Nat.eqb (length buf) d &&
+        Nat.eqb (length buf) (Nat.max d 1) &&
         (fix all (l : list (effect F)) (ss : list (estate F)) {struct l} : bool :=
            match l, ss with
            | [], [] => true
-           | e' :: l', s' :: ss' => shape_ok e' s' && all l' ss'
+           | e' :: l', s' :: ss' => wf e' s' && all l' ss'
            | _, _ => false
            end) fx sub
-    | EReverb _ _ _ _ _ _, SReverb _ => true
+    | EReverb _ _ _ _ _ _, SReverb r => reverb_buffers_nonempty r
+    | _, _ => false
+    end.
+  Fixpoint wf_list (l : list (effect F)) (ss : list (estate F)) {struct l} : bool :=
+    match l, ss with
+    | [], [] => true
+    | e' :: l', s' :: ss' => wf e' s' && wf_list l' ss'
     | _, _ => false
     end.
 
@@ -153,15 +160,17 @@ Section Tree.
     | _ => Ok (run_frames (estep e) s xs)
     end.
 
-  Fixpoint chain_process (T : nat) (l : list (effect F)) (ss : list (estate F)) (ys : list (frame F))
-    : outcome (list (estate F) * list (frame F)) :=
-    match l, ss with
-    | e' :: l', s' :: ss' =>
-        let! (s'', zs) := process T e' s' ys in
-        let! (ss'', ws) := chain_process T l' ss' zs in
-        Ok (s'' :: ss'', ws)
-    | _, _ => Ok (ss, ys)
-    end.
+  (** the feedback chain of a delay on a slice (same as the local [chain] above) *)
+  Definition chain_process (T : nat)
+    : list (effect F) -> list (estate F) -> list (frame F) -> outcome (list (estate F) * list (frame F)) :=
+    fix chain (l : list (effect F)) (ss : list (estate F)) (ys : list (frame F)) {struct l} :=
+      match l, ss with
+      | e' :: l', s' :: ss' =>
+          let! (s'', zs) := process T e' s' ys in
+          let! (ss'', ws) := chain l' ss' zs in
+          Ok (s'' :: ss'', ws)
+      | _, _ => Ok (ss, ys)
+      end.
 
   (** a sequence of [process] calls on consecutive slices *)
   Fixpoint process_slices (T : nat) (e : effect F) (s : estate F) (slices : list (list (frame F)))
